@@ -114,4 +114,38 @@ def mask_contract():
 
 for it in range(N // 5):
     R.check("superimpose minimises RMSD over the masked atoms", "superimpose mask", {"draw": it}, mask_contract)
+
+
+def outlier_contract(n, n_out, max_iterations, min_anchors):
+    """superimpose_without_outliers: the returned transformation is the best fit of the returned anchors"""
+    fixed = points("generic", n)
+    mobile = (fixed - fixed.mean(0)) @ rot(rng).T + rng.uniform(-20, 20, size=3) + rng.normal(size=fixed.shape) * 0.3
+    out_idx = rng.choice(n, size=n_out, replace=False)
+    mobile[out_idx] += rng.normal(size=(n_out, 3)) * rng.choice([3.0, 8.0, 20.0], size=(n_out, 1))
+    f32, m32 = fixed.astype(np.float32), mobile.astype(np.float32)
+    fitted, tr, anchors = struc.superimpose_without_outliers(f32, m32, min_anchors=min_anchors, max_iterations=max_iterations)
+    anchors = np.asarray(anchors)
+    if anchors.ndim != 1 or len(set(anchors.tolist())) != len(anchors) or (len(anchors) and (anchors.min() < 0 or anchors.max() >= n)):
+        return f"anchor indices {anchors.tolist()} are not distinct atom indices"
+    if len(anchors) < min(min_anchors, n):
+        return f"{len(anchors)} anchors returned, min_anchors={min_anchors}"
+    if max_iterations == 1 and len(anchors) != n:
+        return f"max_iterations=1 (no outlier removal) but only {len(anchors)} of {n} atoms are anchors"
+    if not np.allclose(tr.apply(m32), fitted, atol=1e-3):
+        return "transformation.apply(mobile) != fitted coordinates"
+    r_reported = rmsd(fixed[anchors], np.asarray(fitted, dtype=float)[anchors])
+    best, _ = struc.superimpose(f32[anchors], m32[anchors])
+    r_best = rmsd(fixed[anchors], np.asarray(best, dtype=float))
+    if r_reported > r_best + 1e-2:
+        return (f"RMSD over the {len(anchors)} returned anchors is {r_reported:.4f}, "
+                f"a plain superimposition of these anchors reaches {r_best:.4f}")
+    return None
+
+
+for it in range(N // 3):
+    n = int(rng.choice([12, 20, 40]))
+    cfg = (n, int(rng.choice([0, 1, 3, n // 4])), int(rng.choice([1, 2, 3, 10])), int(rng.choice([3, n // 2, n - 2])))
+    R.check("outlier-tolerant superimposition never reports a fit worse than its own anchors imply", f"without_outliers max_iterations={cfg[2]}",
+            {"n": cfg[0], "outliers": cfg[1], "max_iterations": cfg[2], "min_anchors": cfg[3], "draw": it},
+            lambda cfg=cfg: outlier_contract(*cfg))
 R.finish()
